@@ -56,9 +56,9 @@ Clauses == <<"NoRaise", "XsdValid", "XsdKept", "OnePlotFamily", "NamesAsGiven", 
 \* which clauses speak about which operation
 Applies(n, s, a, t) ==
   CASE n = "NoRaise"   -> a.op \in {"add", "reopen", "format"}
-                          \/ (a.op = "replace" /\ ~(s.plots = <<>> /\ NSer(a.data) > 0))
+                          \/ (a.op = "replace" /\ s.plots # <<>>)
                              \* a chart whose plots were all removed (the statement's own "removal of plots left without any")
-                             \* has no plot family left to hold new series: what replace_data must do then is not stated
+                             \* has no plot family left (chart_type is undefined): what replace_data must do then is not stated
     [] t.raised # ""   -> FALSE                                      \* nothing else is judged on a refused / failed call
     [] n = "XsdValid"  -> a.op = "add"
     [] n = "XsdKept"   -> a.op \in {"replace", "reopen"} /\ t.plots # <<>>
@@ -143,7 +143,7 @@ Grow(plots, count) ==
 ImplReplace(s, d) ==
   LET old  == Len(AllSers(s))
       diff == NSer(d) - old
-  IN IF diff > 0 /\ s.plots = <<>> THEN [s EXCEPT !.raised = "IndexError"]                        \* plotArea.xCharts[-1]
+  IN IF s.plots = <<>> THEN [s EXCEPT !.raised = "IndexError"]                                    \* chart_type: self.plots[0]
      ELSE IF diff > 0 /\ s.plots[Len(s.plots)].sers = <<>> THEN [s EXCEPT !.raised = "AttributeError"]   \* last_ser is None
      ELSE LET adj == IF diff > 0 THEN Grow(s.plots, diff) ELSE IF diff < 0 THEN Trim(s.plots, -diff) ELSE s.plots
               \* _rewrite_ser_data over zip(plotArea.sers, chart_data): names and values become the data's, in order
